@@ -152,11 +152,13 @@ def _prefix(drv, gen, rng, kind, flavour, hexfile):
 
 def run_history(rng, version, flavour, steps, *, profile=None, calls=True, persist=None, raising_cb=False,
                 pump_bias=0.7, hexfile=None, clock=True, mqtt=False, harsh=False, prefix=None,
-                tick_p=0.06, restart_p=0.03, snap_dir=None, snap_p=0.0, no_callback=False):
+                tick_p=0.06, restart_p=0.03, snap_dir=None, snap_p=0.0, no_callback=False, real_link=None):
     """One random history on a fresh gateway; returns the trace dict."""
     interner = Interner()
+    if real_link is None:
+        real_link = not mqtt and rng.random() < 0.5
     drv = Driver(version, flavour, interner, persistence_file=persist, raising_cb=raising_cb, mqtt=mqtt, no_callback=no_callback,
-                 spelling=rng.choice(SPELLINGS[version]))
+                 spelling=rng.choice(SPELLINGS[version]), real_link=real_link)
     gen = Gen(rng, version, profile)
     gen.ota_nodes = []
     gen.pending = []
@@ -187,6 +189,9 @@ def run_history(rng, version, flavour, steps, *, profile=None, calls=True, persi
             drv.pump()
             continue
         x = rng.random()
+        if drv.real_link and rng.random() < (0.04 if drv.linkup else 0.25):
+            drv.link(not drv.linkup)        # the connection to the gateway device drops / is back
+            continue
         if gen.pending and rng.random() < 0.3:
             # the node applies a value the controller asked for and reports exactly that value
             n_, c_, t_, v_ = gen.pending.pop(rng.randrange(len(gen.pending)))
